@@ -4202,7 +4202,12 @@ impl Database {
                 .schema
                 .unwrap_or(crate::storage::DEFAULT_SCHEMA);
 
-            if let Ok(table_def) = catalog.resolve_table_in_schema(insert.table.schema, table_name) {
+            if let Some(table_def) = catalog
+                .resolve_table_in_schema(insert.table.schema, table_name)
+                .ok()
+                // the cached plan stores the bound parameters as the row, in order
+                .filter(|table_def| Self::insert_binds_whole_row(insert, table_def.columns()))
+            {
                 let column_types: Vec<_> =
                     table_def.columns().iter().map(|c| c.data_type()).collect();
 
@@ -4429,6 +4434,41 @@ impl Database {
         }
 
         self.execute_statement(&stmt, prepared.sql(), &arena, Some(params))
+    }
+
+    /// True for `INSERT INTO t [(every column, in table order)] VALUES (?, ..., ?)` with one
+    /// parameter per table column and nothing else: the only shape `insert_cached` can execute.
+    fn insert_binds_whole_row(
+        insert: &crate::sql::ast::InsertStmt<'_>,
+        columns: &[crate::schema::ColumnDef],
+    ) -> bool {
+        use crate::sql::ast::{Expr, InsertSource, ParameterRef};
+
+        if insert.on_conflict.is_some() || insert.returning.is_some() {
+            return false;
+        }
+        if let Some(names) = insert.columns {
+            if names.len() != columns.len()
+                || !names
+                    .iter()
+                    .zip(columns)
+                    .all(|(name, col)| col.name().eq_ignore_ascii_case(name))
+            {
+                return false;
+            }
+        }
+        let InsertSource::Values(rows) = insert.source else {
+            return false;
+        };
+        let [row] = rows else {
+            return false;
+        };
+        row.len() == columns.len()
+            && row.iter().enumerate().all(|(i, expr)| match expr {
+                Expr::Parameter(ParameterRef::Positional(n)) => *n as usize == i + 1,
+                Expr::Parameter(_) => true,
+                _ => false,
+            })
     }
 
     fn execute_statement<'a>(
